@@ -252,6 +252,8 @@ def _reject_surrounding_whitespace(headers, hdr_validation_flags):
     # must have at least one character in it and throw exceptions if it
     # doesn't.
     for header in headers:
+        if not header[0]:
+            raise ProtocolError("Received header with empty name.")
         if header[0][0] in _WHITESPACE or header[0][-1] in _WHITESPACE:
             raise ProtocolError(
                 "Received header name surrounded by whitespace %r" % header[0])
